@@ -89,7 +89,12 @@ func realBody(p RealPlan) error {
 	switch p.Fn {
 	case "chans.Merge":
 		ins := make([]chan int, len(p.Lens))
-		ro := make([]<-chan int, len(p.Lens))
+		// the argument slice is a window of a longer one (pairwise merging of a list, say): what lies behind the
+		// window, and the window itself, belong to the caller
+		behind := make(chan int)
+		backing := make([]<-chan int, len(p.Lens)+2)
+		backing[len(p.Lens)], backing[len(p.Lens)+1] = behind, behind
+		ro := backing[:len(p.Lens)]
 		for i := range ins {
 			ins[i] = make(chan int, p.Buf)
 			ro[i] = ins[i]
@@ -112,6 +117,15 @@ func realBody(p RealPlan) error {
 			got = append(got, <-outC)
 		}
 		<-ret // returns once every input is closed and everything is out
+		for i := range backing {
+			want := (<-chan int)(behind)
+			if i < len(ins) {
+				want = ins[i]
+			}
+			if backing[i] != want {
+				return vk.Violf("argument-slice-modified", "chans.Merge(out, list[:%d]...): element %d of the caller's list was overwritten", len(ins), i)
+			}
+		}
 		select {
 		case v := <-outC:
 			return vk.Violf("invented-value", "chans.Merge sent %d after all %d values", v, total)
@@ -156,7 +170,10 @@ func realBody(p RealPlan) error {
 	default:
 		E := sk.NewSentinel("E")
 		recs := make([]*sk.RecStream[int], len(p.Lens))
-		ss := make([]stream.Stream[int], len(p.Lens))
+		behindS := sk.NewRecStream("behind", []int{1})
+		backingS := make([]stream.Stream[int], len(p.Lens)+2)
+		backingS[len(p.Lens)], backingS[len(p.Lens)+1] = behindS, behindS
+		ss := backingS[:len(p.Lens)]
 		for i, n := range p.Lens {
 			items := make([]int, n)
 			for k := range items {
@@ -184,6 +201,18 @@ func realBody(p RealPlan) error {
 			}
 		}
 		m.Close()
+		for i := range backingS {
+			want := stream.Stream[int](behindS)
+			if i < len(recs) {
+				want = recs[i]
+			}
+			if backingS[i] != want {
+				return vk.Violf("argument-slice-modified", "stream.Merge(list[:%d]...): element %d of the caller's list was overwritten", len(recs), i)
+			}
+		}
+		if n, c, _ := behindS.Stats(); n != 0 || c != 0 {
+			return vk.Violf("argument-slice-modified", "stream.Merge(list[:%d]...) used the stream behind its arguments (%d Next, %d Close)", len(recs), n, c)
+		}
 		if final != nil && final != stream.End && !(final == E && p.ErrIn >= 0) {
 			return vk.Violf("wrong-error", "stream.Merge failed with %v (failing input: %d)", final, p.ErrIn)
 		}
